@@ -611,8 +611,48 @@ class ExprMixin:
             if r[0] == "ext":
                 return ExtRef(r[1])
         if name in self.frame.module.globals_assigned:
+            tbl = self._constant_table(self.frame.module, name)
+            if tbl is not None:
+                return tbl
             return ("glob", f"{self.frame.module.name}.{name}")
         return ExtRef("builtins." + name)
+
+    def _constant_table(self, module, name):
+        """a module-level dict / list / tuple display that nothing in the package ever writes is a constant: its value is
+        the display itself (a dispatch table such as {"lax": operator.le, ...})"""
+        v = module.globals_assigned.get(name)
+        if not isinstance(v, (ast.Dict, ast.List, ast.Tuple)):
+            return None
+        cache = getattr(self.project, "_const_table_written", None)
+        if cache is None:
+            cache = self.project._const_table_written = {}
+        key = (module.name, name)
+        if key not in cache:
+            written = False
+            for mm in self.project.modules.values():
+                for x in ast.walk(mm.tree):
+                    tgt = None
+                    if isinstance(x, ast.Subscript) and isinstance(x.ctx, (ast.Store, ast.Del)):
+                        tgt = x.value
+                    elif isinstance(x, ast.Call) and isinstance(x.func, ast.Attribute) and x.func.attr in (
+                            "append", "update", "add", "extend", "pop", "clear", "setdefault", "insert", "remove", "popitem", "sort", "reverse"):
+                        tgt = x.func.value
+                    elif isinstance(x, ast.AugAssign):
+                        tgt = x.target
+                    if tgt is not None and ast.unparse(tgt).split(".")[-1] == name:
+                        written = True
+                    if isinstance(x, ast.Global) and name in x.names:
+                        written = True
+            cache[key] = written
+        if cache[key]:
+            return None
+        saved = self.frames[-1]
+        fr = type(saved)(module, f"{module.short}.<module>", {})
+        self.frames.append(fr)
+        try:
+            return self.eval(v)
+        finally:
+            self.frames.pop()
 
     def e_JoinedStr(self, node):
         parts = []
@@ -970,82 +1010,89 @@ class ExprMixin:
         return self._comprehension(node, None, dict_kv=(node.key, node.value))
 
     def _comprehension(self, node, elt, dict_kv=None):
+        """generators are processed left to right; a generator over a list whose items are known from the source is unrolled
+        (one pass per written item, an item produced inside a loop keeps that loop), any other one is a symbolic loop"""
         base_loops, base_guards = self.loops, self.eff_guards()
+        n_base_guards = len(self.guards)
         saved_env = self.frame.env
         self.frame.env = dict(saved_env)
-        n_loops, n_guards = 0, 0
-        try:
-            if len(node.generators) == 1:
-                gen0 = node.generators[0]
-                it0 = self.eval(gen0.iter)
-                items = self._known_items(it0)
-                if items is not None:
-                    return self._comp_over_items(node, elt, dict_kv, gen0, items, base_loops, base_guards)
-                pre = it0
-            else:
-                pre = None
-            for gi, gen in enumerate(node.generators):
-                it = pre if (gi == 0 and pre is not None) else self.eval(gen.iter)
-                loop = self.new_loop("comp", it, gen)
-                self.loops = self.loops + (loop,)
-                n_loops += 1
-                self.bind_loop_target(gen.target, loop, it)
-                for cond in gen.ifs:
-                    c = self.eval(cond)
-                    t = self.truth(c) if not self._mentions_loop(c, loop) else None
-                    if t is True:
-                        continue
-                    self.guards.append(K(False) if t is False else self.to_term(c))
-                    n_guards += 1
-            rel_loops = self.loops[len(base_loops):]
-            rel_guards = tuple(self.guards[len(self.guards) - n_guards:]) if n_guards else ()
-            if dict_kv is not None:
-                d = PyDict(base_loops=base_loops, base_guards=base_guards)
-                d.entries.append((self.to_term(self.eval(dict_kv[0])), self.eval(dict_kv[1]), rel_loops, rel_guards))
-                return d
-            val = self.eval(elt)
-            out = PyList(base_loops=base_loops, base_guards=base_guards)
-            out.items.append(Item(val, rel_loops, rel_guards))
-            return out
-        finally:
-            for _ in range(n_guards):
-                self.guards.pop()
-            self.loops = base_loops
-            self.frame.env = saved_env
-
-    def _comp_over_items(self, node, elt, dict_kv, gen, items, base_loops, base_guards):
-        """comprehension over a list whose items are known: one output item per input item"""
         out = PyDict(base_loops=base_loops, base_guards=base_guards) if dict_kv is not None else \
             PyList(base_loops=base_loops, base_guards=base_guards)
-        for val, loops, guards in items:
-            nl, ng = len(self.loops), len(self.guards)
-            self.loops = self.loops + tuple(loops)
-            self.guards.extend(guards)
-            extra = []
-            try:
-                self.assign(gen.target, val, gen)
-                skip = False
-                for cond in gen.ifs:
-                    c = self.eval(cond)
-                    t = self.truth(c) if not loops else None
-                    if t is True:
-                        continue
-                    if t is False:
-                        skip = True
-                        break
-                    extra.append(self.to_term(c))
-                if skip:
+
+        def produce():
+            rel_loops = self.loops[len(base_loops):]
+            rel_guards = tuple(self.guards[n_base_guards:])
+            if dict_kv is not None:
+                out.entries.append((self.to_term(self.eval(dict_kv[0])), self.eval(dict_kv[1]), rel_loops, rel_guards))
+            else:
+                out.items.append(Item(self.eval(elt), rel_loops, rel_guards))
+
+        def conditions(gen, static_ok):
+            """push the residual conditions of the generator; False when a condition is statically false"""
+            for cond in gen.ifs:
+                c = self.eval(cond)
+                t = self.truth(c) if static_ok and not any(self._mentions_loop(c, l_) for l_ in self.loops[len(base_loops):]) else None
+                if t is True:
                     continue
-                self.guards.extend(extra)
-                if dict_kv is not None:
-                    out.entries.append((self.to_term(self.eval(dict_kv[0])), self.eval(dict_kv[1]),
-                                        tuple(loops), tuple(guards) + tuple(extra)))
+                if t is False:
+                    return False
+                self.guards.append(self.to_term(c))
+            return True
+
+        def rec(gi):
+            if gi == len(node.generators):
+                produce()
+                return
+            gen = node.generators[gi]
+            it = self.eval(gen.iter)
+            items = self._known_items(it)
+            if items is not None:
+                for val, loops, guards in items:
+                    nl, ng = len(self.loops), len(self.guards)
+                    env_before = dict(self.frame.env)
+                    self.loops = self.loops + tuple(loops)
+                    self.guards.extend(guards)
+                    try:
+                        self.assign(gen.target, val, gen)
+                        if conditions(gen, static_ok=not loops):
+                            rec(gi + 1)
+                    finally:
+                        self.loops = self.loops[:nl]
+                        del self.guards[ng:]
+                        self.frame.env = env_before
+                return
+            readers = list(gen.ifs) + [g2 for g2 in node.generators[gi + 1:]] + \
+                ([elt] if elt is not None else []) + (list(dict_kv) if dict_kv is not None else [])
+            it, target, keyed = self.normalize_iteration(it, gen.target, readers)
+            z = self.zip_as_range(self.ref_term(it) if not isinstance(it, tuple) else it)
+            if z is not None:
+                it = z[0]
+            loop = self.new_loop("comp", it, gen)
+            if z is not None:
+                if not hasattr(self, "_zip_loops"):
+                    self._zip_loops = {}
+                self._zip_loops[loop[1]] = z[1]
+            nl, ng = len(self.loops), len(self.guards)
+            self.loops = self.loops + (loop,)
+            try:
+                if keyed is not None:
+                    self.assign(keyed[1].elts[0], ("elem", loop), gen)
+                    self.assign(keyed[1].elts[1], ("idx", keyed[0], ("elem", loop)), gen)
                 else:
-                    out.items.append(Item(self.eval(elt), tuple(loops), tuple(guards) + tuple(extra)))
+                    self.bind_loop_target(target, loop, it)
+                if conditions(gen, static_ok=True):
+                    rec(gi + 1)
             finally:
                 self.loops = self.loops[:nl]
                 del self.guards[ng:]
-        return out
+
+        try:
+            rec(0)
+            return out
+        finally:
+            del self.guards[n_base_guards:]
+            self.loops = base_loops
+            self.frame.env = saved_env
 
     def _mentions_loop(self, v, loop):
         from .terms import subterms
